@@ -583,6 +583,14 @@ def crash_analysis(ck, g, wd, listed, cands=None):
 def do_replay(ck, path, listed):
     rep = json.load(open(path))
     p = rep['path']
+    # the design verdict that goes with a replay: the smallest configuration, checked in this run
+    tr = tlc.run('NetListener', 'mc.cfg', timeout=300, workers=TLC_WORKERS, extra_files={'mc.cfg': gcfg(QUICK_GRAPHS[0])})
+    ck.add('states', tr.distinct)
+    ck.add('transitions', tr.generated)
+    ck.cov['tlc_configs'] = ['NetListener Sync %s: %d distinct states, %d generated (%s)' %
+                             (QUICK_GRAPHS[0]['name'], tr.distinct, tr.generated, 'ok' if tr.ok else (tr.violation or 'not finished'))]
+    ck.add('traces_validated_against_impl', 0)
+    ck.sample({'replayed': [st.get('label') for st in p['steps']]})
     job = {'graphs': [], 'paths': [p], 'seed': ck.seed, 'workers': 1, 'budget_ms': 60000,
            'known': listed and rep.get('slug') != SLUG, 'units': [p.get('unit', 1)]}
     g = gorun.run_harness('^TestVS_NetListener$', HARNESS, None, inputs={'job': job}, timeout=180)
@@ -596,14 +604,7 @@ def do_replay(ck, path, listed):
             ck.inconc('harness produced no result: ' + g.out[-800:])
         return ck.finish()
     r = g.result
-    # the design verdict that goes with a replay: the smallest configuration, checked in this run
-    tr = tlc.run('NetListener', 'mc.cfg', timeout=300, workers=TLC_WORKERS, extra_files={'mc.cfg': gcfg(QUICK_GRAPHS[0])})
-    ck.add('states', tr.distinct)
-    ck.add('transitions', tr.generated)
-    ck.cov['tlc_configs'] = ['NetListener Sync %s: %d distinct states, %d generated (%s)' %
-                             (QUICK_GRAPHS[0]['name'], tr.distinct, tr.generated, 'ok' if tr.ok else (tr.violation or 'not finished'))]
     ck.add('traces_validated_against_impl', r['conforming'])
-    ck.sample({'replayed': [s.get('label') for s in p['steps']]})
     for v in r.get('violations') or []:
         ck.violation('%s: %s' % (v['kind'], v['detail']), rep, name=os.path.basename(path))
     kw = r.get('known_witness')
